@@ -4,13 +4,9 @@ package service
 // and block-handler properties are executed twice on the same symbolic inputs under independent symbolic map
 // orders and host-clock readings, in one process; both executions must end in the same stores and balances
 // (verifSelfCompose, harness/rt).
-func VerifC11_SelfT_C12_Service() {
-	// two bindings, a withdraw address, default params, a context created running whose first batch the
-	// end-block handler starts; what happens later, the kind of context and the export mode stay free
-	verifAssume(verifChoice("changedParams", 2) == 0 && verifChoice("secondBinding", 2) == 1 && verifChoice("withdrawAddress", 2) == 1)
-	verifAssume(verifChoice("createdPaused", 2) == 0 && verifChoice("endBlock", 2) == 1)
-	verifSelfCompose(VerifC12_Service)
-}
+// (the export/import history VerifC12_Service is NOT self-composed: two executions of it under symbolic map orders
+// and clock readings did not finish within 50 minutes on 16 cores, pinned choices included; the service module's
+// C11 coverage is the end-block unit, the three histories below and VerifC11_ServiceOffChainDisturbance)
 func VerifC11_Self_C08_BatchExpiry() { verifSelfCompose(VerifC08_BatchExpiry) }
 func VerifC11_Self_C08_Respond()     { verifSelfCompose(VerifC08_Respond) }
 func VerifC11_Self_C08_Callback()    { verifSelfCompose(VerifC08_Callback) }
